@@ -73,6 +73,11 @@ class Chunk:
             raise ValueError(
                 f"Attempt to create chunk {self} with data of {got_dtype}, should be {expected_dtype}"
             )
+        if strax.dtype_layout(dtype) != strax.dtype_layout(self.data.dtype):
+            raise ValueError(
+                f"Attempt to create chunk {self} with data laid out in memory as "
+                f"{self.data.dtype}, should be {np.dtype(dtype)}"
+            )
         if self.start < 0:
             raise ValueError(f"Attempt to create chunk {self} with negative start time")
         if self.start > self.end:
